@@ -116,6 +116,14 @@ def dot(X, B):
   raise core.HarnessError("numpy.dot is only modelled for dot(inv(A), B)")
 
 
+  @staticmethod
+  def lstsq(A, B, rcond=None):
+    """for the square, nonsingular systems of the spline code the least-squares solution IS the solution: same contract as
+    solve (numerical rank decisions are outside this model; the concrete layers look at them)"""
+    x = _Linalg.solve(A, B)
+    return x, Arr([]), len(list(A)), Arr([])
+
+
 linalg = _Linalg()
 
 
